@@ -19,6 +19,7 @@ package memory
 import (
 	"context"
 	"fmt"
+	"math"
 	"sort"
 	"sync"
 	"time"
@@ -242,10 +243,16 @@ func newChecker(o *storage.LookupOptions, op *predicate.Predicate) *checker {
 			ta = t
 		}
 	}
+	// Number of elements to skip to reach the requested page. If the product overflows,
+	// the page lies beyond the end of any possible result: skip everything.
+	padded := o.MaxElements * o.Offset
+	if o.MaxElements > 0 && o.Offset > 0 && padded/o.Offset != o.MaxElements {
+		padded = math.MaxInt
+	}
 	return &checker{
 		max:            o.MaxElements > 0,
 		pageSize:       o.MaxElements,
-		paddedPageSize: o.MaxElements * o.Offset,
+		paddedPageSize: padded,
 		o:              o,
 		op:             op,
 		ota:            ta,
